@@ -24,6 +24,8 @@ CONSTANTS Eps,          \* endpoint ids
           BadLists,     \* lists with a nameless entry, pushed through the registry API
           FailKinds,    \* ways a discovery can fail (non-200, unparsable, connection cut)
           FilterChoices,\* filter configurations an endpoint may have
+          FailBodies,   \* listings sent along with a failure (must be ignored)
+          WithConcurrency, \* generate Burst / Par steps too
           MaxLen,       \* number of environment operations per scenario
           Probe         \* names looked up in every dump (scenario payload only)
 
@@ -57,38 +59,53 @@ Init == /\ flt \in [Eps -> FilterChoices]
 
 Log(tok) == scn' = [scn EXCEPT !.ops = Append(@, tok)]
 
-\* an accepted list K (already filtered) replaces everything e had: validate, drop old, add new
-Accept(e, K) ==
-    /\ last'  = [last  EXCEPT ![e] = Names(K)]
-    /\ lastN' = [lastN EXCEPT ![e] = Len(K)]
-    /\ known' = known \cup {e}
-    /\ perEp' = [perEp EXCEPT ![e] = Names(K)]
-    /\ idx'   = (idx \ Pairs(e, perEp[e])) \cup Pairs(e, Names(K))   \* drop old entries, add new
-    /\ dirty' = dirty \cup {e}
-    /\ UNCHANGED <<flt, uni>>
+(* One environment step is a set of operations on pairwise distinct endpoints, S = [D -> op],  *)
+(* issued concurrently (|D| = 1: a single operation).  Operations on different endpoints touch *)
+(* disjoint parts of the catalogue, so their combined effect does not depend on the            *)
+(* interleaving.  op = [op, L]:                                                                *)
+(*   "Reg"    successful discovery (HTTP 200, parsable listing L): filter, then replace         *)
+(*   "Direct" list L pushed through the registry API and accepted (no filter on that path)     *)
+(*   "Rm"     endpoint removed                                                                 *)
+(*   "Fail"   failed discovery / "Bad" rejected list: nothing changes                          *)
+OpReg(L)  == [op |-> "Reg", L |-> L]
+OpDir(L)  == [op |-> "Direct", L |-> L]
+OpRm      == [op |-> "Rm", L |-> <<>>]
+OpNone(o) == [op |-> o, L |-> <<>>]
+
+\* names an operation makes e list (nothing for failures and removals)
+OpNames(e, o) == IF o.op = "Reg" THEN Names(Kept(o.L, flt[e]))
+                 ELSE IF o.op = "Direct" THEN Names(o.L) ELSE {}
+
+Apply(S) ==
+    LET D == DOMAIN S
+        R == {e \in D : S[e].op \in {"Reg", "Direct"}}       \* accepted lists
+        X == {e \in D : S[e].op = "Rm"}
+        K(e) == IF S[e].op = "Reg" THEN Kept(S[e].L, flt[e]) ELSE S[e].L
+        NewNames(e) == IF e \in R THEN Names(K(e)) ELSE IF e \in X THEN {} ELSE last[e]
+    IN  /\ D \subseteq Eps
+        /\ last'  = [e \in Eps |-> NewNames(e)]
+        /\ lastN' = [e \in Eps |-> IF e \in R THEN Len(K(e)) ELSE IF e \in X THEN 0 ELSE lastN[e]]
+        /\ known' = (known \cup R) \ X
+        /\ perEp' = [e \in Eps |-> NewNames(e)]
+        \* replace semantics: validate first, then drop the old index entries, then add the new
+        /\ idx'   = (idx \ UNION {Pairs(e, perEp[e]) : e \in R \cup X}) \cup UNION {Pairs(e, NewNames(e)) : e \in R}
+        /\ uni'   = {p \in uni : p[2] \notin X}
+        /\ dirty' = dirty \cup R
+        /\ UNCHANGED flt
 
 \* a successful discovery: HTTP 200 with a parsable listing
-Register(e, L) == act' = "Reg" /\ Accept(e, Kept(L, flt[e])) /\ Log(<<"Reg", e, L>>)
-
-\* a list pushed through the registry API (no filter on that path)
-RegisterDirect(e, L) == act' = "Direct" /\ Accept(e, L) /\ UNCHANGED scn
-
+Register(e, L) == act' = "Reg" /\ Apply(e :> OpReg(L)) /\ Log(<<"Reg", e, L>>)
 \* a list with a nameless entry is rejected as a whole: nothing changes
-RegisterBad(e, L) == /\ HasNameless(L) /\ act' = "Bad"
-                     /\ UNCHANGED core /\ Log(<<"Bad", e, L>>)
-
+RegisterBad(e, L) == HasNameless(L) /\ act' = "Bad" /\ Apply(e :> OpNone("Bad")) /\ Log(<<"Bad", e, L>>)
 \* a failed discovery (kind k; L is whatever body the backend sent along): nothing changes
-DiscoveryFails(e, k, L) == act' = "Fail" /\ UNCHANGED core /\ Log(<<"Fail", e, k, L>>)
-
-Remove(e) == /\ act' = "Rm"
-             /\ last'  = [last  EXCEPT ![e] = {}]
-             /\ lastN' = [lastN EXCEPT ![e] = 0]
-             /\ known' = known \ {e}
-             /\ perEp' = [perEp EXCEPT ![e] = {}]
-             /\ idx'   = idx \ Pairs(e, perEp[e])
-             /\ uni'   = NotOf(uni, e)
-             /\ UNCHANGED <<flt, dirty>>
-             /\ Log(<<"Rm", e>>)
+DiscoveryFails(e, k, L) == act' = "Fail" /\ Apply(e :> OpNone("Fail")) /\ Log(<<"Fail", e, k, L>>)
+Remove(e) == act' = "Rm" /\ Apply(e :> OpRm) /\ Log(<<"Rm", e>>)
+\* two successive successful discoveries of e with no pause in between: the second one counts
+Burst(e, L1, L2) == act' = "Burst" /\ Apply(e :> OpReg(L2)) /\ Log(<<"Burst", e, L1, L2>>)
+\* concurrent operations on distinct endpoints; T = [D -> scenario token]
+TokOp(t) == IF t[1] = "Reg" THEN OpReg(t[3]) ELSE IF t[1] = "Rm" THEN OpRm ELSE OpNone("Fail")
+Par(T) == /\ act' = "Par" /\ Apply([e \in DOMAIN T |-> TokOp(T[e])])
+          /\ Log(<<"Par", T>>)
 
 \* the asynchronous merge of e's latest listing (idempotent; reads the latest state, so late or
 \* reordered merges are harmless)
@@ -102,11 +119,24 @@ Quiesce == /\ uni' = {p \in uni : p[2] \notin dirty} \cup UNION {Pairs(e, last[e
            /\ dirty' = {}
            /\ UNCHANGED <<flt, last, lastN, known, perEp, idx>>
 
-Env == \E e \in Eps :
-          \/ \E L \in Listings : Register(e, L)
-          \/ \E L \in BadLists : RegisterBad(e, L)
-          \/ \E k \in FailKinds : \E L \in Listings \ {<<>>} : DiscoveryFails(e, k, L)
-          \/ Remove(e)
+SingleTok(e) == {<<"Reg", e, L>> : L \in Listings}
+                \cup {<<"Fail", e, k, L>> : k \in FailKinds, L \in FailBodies}
+                \cup {<<"Rm", e>>}
+Single == \E e \in Eps :
+             \/ \E L \in Listings : Register(e, L)
+             \/ \E L \in BadLists : RegisterBad(e, L)
+             \/ \E k \in FailKinds : \E L \in FailBodies : DiscoveryFails(e, k, L)
+             \/ Remove(e)
+ParOf(D) == LET a == CHOOSE x \in D : TRUE
+                b == CHOOSE x \in D : x # a
+            IN  IF Cardinality(D) = 2
+                THEN \E ta \in SingleTok(a), tb \in SingleTok(b) : Par((a :> ta) @@ (b :> tb))
+                ELSE LET c == CHOOSE x \in D : x # a /\ x # b IN
+                     \E ta \in SingleTok(a), tb \in SingleTok(b), tc \in SingleTok(c) :
+                         Par((a :> ta) @@ (b :> tb) @@ (c :> tc))
+Concurrent == \/ \E e \in Eps : \E L1, L2 \in Listings : L1 # L2 /\ Burst(e, L1, L2)
+              \/ \E D \in SUBSET Eps : Cardinality(D) \in {2, 3} /\ ParOf(D)
+Env  == Single \/ (WithConcurrency /\ Concurrent)
 Next == (Len(scn.ops) < MaxLen /\ Env) \/ \E e \in Eps : Merge(e)
 Spec == Init /\ [][Next]_vars
 
@@ -125,6 +155,9 @@ Inv_C10_nostale == \A p \in uni \cup idx : p[1] \in last[p[2]] \/ p[2] \in dirty
 Inv_C10_count == \A e \in Eps : Cardinality(last[e]) <= lastN[e]
 \* a rejected or failed update leaves the previous attribution intact
 RejectedKeeps == [][act' \in {"Bad", "Fail"} => UNCHANGED <<last, lastN, perEp, idx, uni>>]_vars
+\* concurrent steps: endpoints that only saw failures keep theirs
+OthersKeep == [][act' \in {"Reg", "Rm", "Burst"} =>
+                   \E e \in Eps : \A o \in Eps \ {e} : last'[o] = last[o] /\ perEp'[o] = perEp[o]]_vars
 \* what is attributed after a successful listing passed the endpoint's filter
 OnlyFiltered == \A e \in Eps : \A m \in last[e] : Passes(m, flt[e].inc, flt[e].exc)
 
@@ -184,6 +217,8 @@ ListingsAll   == ListingsMid \cup {<<a, b>> : a, b \in Entries} \cup {<<a>> : a 
 BadQuick      == {<<xy, nil>>, <<nil, MM>>}
 BadAll        == BadQuick \cup {<<nil>>, <<m2, nil, ps>>}
 FailQuick     == {"h500", "h203", "garbage"}
+BodiesOne     == {<<MM, ps>>}
+BodiesTwo     == {<<MM, ps>>, <<m2, xy>>}
 FailAll       == {"h500", "h404", "h203", "h204", "garbage", "trunc", "cut"}
 
 F_none == NoFilter
